@@ -9,6 +9,18 @@ props = [json.loads(l) for l in open(os.path.join(HERE, "properties.jsonl"))]
 
 T_DIFF = "runtime monitoring: differential execution against an exact reference model"
 CHECKS = {
+    "C07": dict(text="seeded histories (assume/pop/next/check/simplify_db/fill-to-total-assignment) over mixed SAT+LRA+IDL+RDL+OV networks on Debug and Release builds; after every step z3 decides whether every assigned literal follows from all clauses seen through the new_clause hook, the hook-reported meaning of every theory literal, the no-goods next() adds and the standing decisions; every false answer is compared with satisfiability, every learnt clause and theory conflict is checked for entailment, every complete assignment is evaluated against all clauses",
+                note="trusts z3 on the small formulas the harness wrote itself and the hook events for which clauses/literals exist; incompleteness is never reported",
+                technique="runtime monitoring: online entailment checking of observed state and hook events against an SMT reference model"),
+    "C08": dict(text="pop-heavy histories; LRA bounds recomputed from the assigned assertion literals after every step, DL matrices compared with the closure of the assigned constraints after every step, and mixed networks compared at checkpoints with a twin network (same construction, only the standing decisions) - literal values at root, full theory state whenever the assigned literals coincide",
+                note="LRA values are excluded (pivot-history dependent); above root level a twin may have propagated more theory literals than the main network (incompleteness), which is not judged",
+                technique="runtime monitoring: recomputation of visible state from assigned literals + twin-network differential"),
+    "C09": dict(text="seeded LRA systems and assert/negate/retract histories on Debug and Release builds; after every successful step the reported values are checked to be a model (bounds, slack definitions, asserted atoms, eps-strict) with exact arithmetic, z3 confirms feasibility and that no reported bound cuts off a real solution, every refutation is confirmed infeasible, every theory conflict and learnt clause seen through the hooks is validated",
+                note="trusts z3 (Real arithmetic) on systems of <= 5 variables the harness wrote itself and the lra_slack/lra_assertion hooks for the meaning of internal variables",
+                technique="runtime monitoring: model checking of reported values + SMT validation of explanations seen through hooks"),
+    "C11": dict(text="relation requests with constants on both sides, cancelling variables, scaled/shifted/negated copies, issued before and after root-level tightening and pivots; TRUE/FALSE constants judged by z3 entailment, literals shared by two requests must be equivalent, and every decided request literal must agree with its relation on every model the theory reports",
+                note="trusts z3 and exact evaluation; negated equalities with undecided parts are partial assignments and are not judged",
+                technique="runtime monitoring: differential execution against an SMT reference + model evaluation"),
     "C10": dict(text="seeded assume/negate/pop histories over IDL and RDL networks (incl. growth beyond the initial matrix size, repeated pairs, clauses over constraint literals) on Debug and Release builds; after every step the whole distance matrix is compared with an independent exact all-pairs closure of the currently assigned constraints, refutations are compared with negative-cycle existence, and every learnt clause / theory conflict seen through the hooks is validated (closure or z3)",
                 note="trusts the harness's Floyd-Warshall over (rational, eps) pairs and z3 (only for cases with propositional clauses); RDL constraints use eps in {0,-1}",
                 technique="runtime monitoring: state observation after every API call vs exact shortest-path model; hook-level validation of explanations"),
